@@ -83,9 +83,11 @@ type risItem struct {
 type fakeRIS struct {
 	risapi.UnimplementedRoutingInformationServiceServer
 	streams chan chan risItem
+	opened  chan struct{} // one token per ObserveRIB call that reached the server
 }
 
 func (f *fakeRIS) ObserveRIB(_ *risapi.ObserveRIBRequest, st risapi.RoutingInformationService_ObserveRIBServer) error {
+	f.opened <- struct{}{}
 	for ch := <-f.streams; ; {
 		select {
 		case it := <-ch:
@@ -189,11 +191,12 @@ func runRIS(c risCase, id string, st *seqStats, viol func(string, map[string]str
 		s.fake.streams <- s.ch
 		s.cl = risclient.New(&risclient.Request{Router: "r", VRFRD: 1}, s.cc, tc)
 		pprof.Do(context.Background(), pprof.Labels("c29ris", s.label), func(context.Context) { s.cl.Start() })
-		return await(s.recv, "client never called Recv on its ObserveRIB stream")
+		// the stream exists on both ends (gRPC would silently re-create a stream the server never saw when the server goes away)
+		return await(s.fake.opened, "ObserveRIB never reached the server") && await(s.recv, "client never called Recv on its ObserveRIB stream")
 	}
 	for i := range srcs {
 		lis := bufconn.Listen(1 << 16)
-		s := &risSrc{fake: &fakeRIS{streams: make(chan chan risItem, 4)}, srv: grpc.NewServer(), done: make(chan struct{}, 64)}
+		s := &risSrc{fake: &fakeRIS{streams: make(chan chan risItem, 4), opened: make(chan struct{}, 4)}, srv: grpc.NewServer(), done: make(chan struct{}, 64)}
 		risapi.RegisterRoutingInformationServiceServer(s.srv, s.fake)
 		go s.srv.Serve(lis)
 		cc, err := grpc.Dial("bufnet", grpc.WithContextDialer(func(ctx context.Context, _ string) (net.Conn, error) { return lis.DialContext(ctx) }),
